@@ -38,6 +38,10 @@ class ThreadRunner(BaseRunner):
             result = payload()
         except BaseException as e:  # noqa: B036
             failure = e
+            if isinstance(e, StopIteration):
+                # StopIteration cannot be set on a Future nor raised out of a coroutine
+                failure = RuntimeError("payload raised StopIteration")
+                failure.__cause__ = e
         else:
             if result is None:
                 return
